@@ -58,6 +58,15 @@ def terminal_observations(x):
         obs["max"] = float(x.max())
         obs["min"] = float(x.min())
         obs["clip"] = _val(x.clip(-1, 2))
+    obs["allclose_self"] = bool(x.allclose(x.copy())) and bool(x.copy().allclose(x))
+    obs["allclose_neg"] = bool(x.allclose(-x))
+    if x.ndim in (1, 2) and all(ix.subinfo is None for ix in x.indices):
+        p = x.dagger() if x.ndim == 2 else x.conj()
+        for nm, (l, r) in {"matmul_xp": (x, p), "matmul_px": (p, x)}.items():
+            try:
+                obs[nm] = _val(l @ r)
+            except Exception as e:  # noqa
+                obs[nm] = f"raised {type(e).__name__}"
     obs["neg"] = _val(-x)
     obs["x2"] = _val(x * 2)
     obs["self_add"] = _val(x + x)
